@@ -44,9 +44,13 @@ func c11Line(g *Gen) string {
 	case 5:
 		// long lines around the 4 KiB read buffer
 		n := Pick(g, []int{4090, 4095, 4096, 4097, 4100, 8191, 8192, 8193, 9000})
+		if g.Chance(1, 15) {
+			// beyond every customary token limit of line readers (64 KiB, 1 MiB is left to the thorough tier)
+			n = Pick(g, []int{65534, 65535, 65536, 65537, 70000, 131072})
+		}
 		return "||example.org/" + strings.Repeat("a", n-14-g.Intn(3))
 	case 6:
-		return "! " + strings.Repeat("c", Pick(g, []int{4094, 4095, 4096, 5000}))
+		return "! " + strings.Repeat("c", Pick(g, []int{4094, 4095, 4096, 5000, 5001, 4093, 66000}))
 	case 7:
 		return Pick(g, []string{" ", "\t"}) + genNetworkRule(g) + Pick(g, []string{" ", "\t", "  "})
 	default:
